@@ -144,6 +144,7 @@ class Module:
         self.is_test = is_test_path(rel)
         self.functions = {}      # top-level
         self.classes = {}
+        self.class_list = []     # every ClassDef at module level, duplicates of a name included
         self.all_funcs = []      # incl. methods and nested
         self.bindings = {}       # local name -> ('module', modname) | ('object', modname, objname)
         self.imports = []        # (modname, lineno, lazy: bool, node, owner FuncInfo|None, names)
@@ -173,6 +174,7 @@ class Module:
             if cls is None and parent is None:
                 ci = ClassInfo(self, node)
                 self.classes[node.name] = ci
+                self.class_list.append(ci)
                 for sub in node.body:
                     self._index_stmt(sub, ci, None)
         elif isinstance(node, (ast.If, ast.Try, ast.With, ast.For, ast.While)):
@@ -337,7 +339,7 @@ class Repo:
 
     def _resolve_bases(self):
         for m in self.modules.values():
-            for c in m.classes.values():
+            for c in m.class_list:
                 for b in c.base_exprs:
                     if b is None:
                         continue
@@ -349,7 +351,7 @@ class Repo:
         for m in self.modules.values():
             if m.is_test and not include_tests:
                 continue
-            for c in m.classes.values():
+            for c in m.class_list:
                 yield c
 
     def subclasses_of(self, base, include_tests=False, strict=True):
